@@ -36,7 +36,7 @@ OpSet ==
   \cup UNION { {Ev("cas", k, v, 0, nr, t, 0, <<>>, <<>>) : v \in {V27, VX}, nr \in BOOLEAN, t \in {CurCas(k), CurCas(k) + 7}} : k \in Keys }
   \cup {Ev(op, k, <<>>, 0, FALSE, 0, 0, <<>>, <<>>) : op \in {"get", "gets"}, k \in Keys}
   \cup {Ev(op, k, <<>>, x, FALSE, 0, 0, <<>>, <<>>) : op \in {"gat", "gats"}, k \in Keys, x \in {0, 2, -1}}
-  \cup {Ev(op, "", <<>>, 0, FALSE, 0, 0, ks, <<>>) : op \in {"get_many", "gets_many"}, ks \in {<<"a", "b">>, <<"b">>}}
+  \cup {Ev(op, "", <<>>, 0, FALSE, 0, 0, ks, <<>>) : op \in {"get_many", "gets_many"}, ks \in {<<"a", "b">>, <<"b">>, <<"a", "a", "b">>}}
   \cup {Ev("delete", k, <<>>, 0, nr, 0, 0, <<>>, <<>>) : k \in Keys, nr \in BOOLEAN}
   \cup {Ev("delete_many", "", <<>>, 0, nr, 0, 0, <<"a", "b">>, <<>>) : nr \in BOOLEAN}
   \cup {Ev(op, k, <<>>, 0, nr, 0, d, <<>>, <<>>) : op \in {"incr", "decr"}, k \in Keys, d \in {1, 30}, nr \in BOOLEAN}
